@@ -347,9 +347,25 @@ def main(run, pid):
             sys.exit(2)
     ctx = Ctx(pid, tier, seed)
     ctx.replay = a.replay
+    # lean/MjProof/Gen is shared: a run against a scratch worktree (VERIF_REPO set) regenerates it from
+    # that worktree, so such runs are exclusive and restore Gen from /repo before releasing the lock;
+    # ordinary runs share the lock.
+    os.makedirs(CACHE, exist_ok=True)
+    genlock = open(os.path.join(CACHE, "genmode.lock"), "w")
+    foreign = os.path.realpath(REPO) != "/repo"
+    fcntl.flock(genlock, fcntl.LOCK_EX if foreign else fcntl.LOCK_SH)
     try:
-        run(ctx)
-        rc = ctx.finish()
+        try:
+            run(ctx)
+            rc = ctx.finish()
+        finally:
+            if foreign:
+                env = dict(os.environ)
+                env.pop("VERIF_REPO", None)
+                subprocess.run([sys.executable, os.path.join(VERIF, "translate", "regen_all.py")],
+                               capture_output=True, text=True, env=env)
+                subprocess.run(["lake", "build", "MjProof.Gen.KernelsDispatch"], cwd=LEAN, capture_output=True, text=True)
+            fcntl.flock(genlock, fcntl.LOCK_UN)
     except subprocess.TimeoutExpired as e:
         print("INFRA: timeout %s" % e, file=sys.stderr)
         rc = 2
